@@ -26,7 +26,7 @@ if mods:
     ck.require_theorems([
         'LbzVerif.Props.C06.deltaWindow_complete',
     ])
-inproc.run_libs(ck, ['w12_emit'])
+inproc.run_libs(ck, ['w12_emit', 'w15_retrieve'])
 exe = ck.build_lbzip2(asan=False)
 evals = nontriv = 0
 samples = []
